@@ -209,6 +209,25 @@ class Gen:
           self.classes.add("display-animated")
         if a.begin not in (None, 0):
           self.classes.add("anim-on-offset-element")
+    if a.kind != "Region" and rng.random() < self.p["p_anim"] * 0.25:
+      # later steps override earlier ones: a step that restates the specified value, inside the interval of an earlier step with
+      # another value, changes the presentation at both of its ends
+      prop = rng.choice(["Color", "BackgroundColor", "Opacity", "Visibility", "FontStyle"])
+      v0, v1 = style_value(rng, prop), style_value(rng, prop)
+      if v0 != v1:
+        a.styles[prop] = v0
+        a.anims = [x for x in a.anims if x[0] != prop]
+        a.anims.append((prop, Fr(1), Fr(8), v1))
+        a.anims.append((prop, Fr(3), Fr(5), v0))
+        self.classes.add("overlapping-steps-restating-specified")
+    if a.kind == "Region" and rng.random() < 0.08:
+      wm = rng.choice(["lrtb", "rltb"])
+      a.styles["WritingMode"] = E("WritingModeType", wm)
+      a.styles.pop("Direction", None)
+      a.anims = [x for x in a.anims if x[0] not in ("Direction", "WritingMode")]
+      b = rng.choice(TIME_GRID)
+      a.anims.append(("Direction", b, b + rng.choice([Fr(1), Fr(2), Fr(5)]), E("DirectionType", "rtl" if wm == "lrtb" else "ltr")))
+      self.classes.add("region-direction-animated-against-writing-mode")
 
   def region_ref(self, a: AbsEl, p=None):
     p = self.p["p_region_ref"] if p is None else p
@@ -361,6 +380,17 @@ class Gen:
         a.children.append(self.ruby())
       else:
         a.children.append(self.br())
+    if rng.random() < 0.08:
+      # the paragraph is active longer than all of its spans, and a br is its direct child: while only the br is active the
+      # paragraph (and its background) is still presented
+      a.begin, a.end = Fr(1), Fr(10)
+      a.styles.pop("Display", None)
+      a.anims = [x for x in a.anims if x[0] != "Display"]
+      a.styles["BackgroundColor"] = ("C", (255, 0, 0, 255))
+      s1, s2 = self.span(timed=False), self.span(timed=False)
+      s1.begin, s1.end, s2.begin, s2.end = Fr(1), Fr(2), Fr(4), Fr(5)
+      a.children = [s1, AbsEl("Br", id=self.eid()), s2]
+      self.classes.add("p-outlives-spans-with-br")
     return a
 
   def div(self, depth=0):
@@ -432,7 +462,8 @@ class Gen:
         d.initials[prop] = style_value(rng, prop)
         if prop == "Display":
           self.classes.add("display-initial")
-    if rng.random() < 0.05:
+    initial_none = rng.random() < 0.05
+    if initial_none:
       # <initial tts:display="none"/>: only elements that specify or animate display are presented
       d.initials["Display"] = E("DisplayType", "none")
       self.classes.add("display-initial")
@@ -445,6 +476,13 @@ class Gen:
       for _ in range(rng.choice([1, 1, 2, 3])):
         b.children.append(self.div())
       d.body = b
+      if initial_none:
+        # show about half of the elements explicitly: shown parents with children that specify nothing (these stay hidden)
+        for r in d.regions:
+          r.styles["Display"] = E("DisplayType", "auto")
+        for el in b.walk():
+          if el.kind not in ("Text", "Br") and rng.random() < 0.55:
+            el.styles["Display"] = E("DisplayType", "auto")
     return d
 
 
